@@ -15,7 +15,8 @@
 (***************************************************************************)
 EXTENDS MountsBase, TLC
 
-CONSTANTS MaxLen,        \* longest mount table
+CONSTANTS Menu,          \* entry kinds the tables are made of (Kinds | KindsCore of MountsBase)
+          MaxLen,        \* longest mount table
           ContOpts,      \* set of <<linkm, maskm, devnull>> explored for the container
           Envs           \* set of environments
 
@@ -27,8 +28,8 @@ EnvOther == [proc |-> ProcSome, srcfl |-> {"NOSUID", "NODEV", "RELATIME"}, lockf
 EnvsOne  == { EnvHere }
 EnvsTwo  == { EnvHere, EnvOther }
 
-ForkCfgs == ForkCfgsOf(MaxLen)
-ContCfgs == ContCfgsOf(MaxLen, ContOpts)
+ForkCfgs == ForkCfgsOver(Menu, MaxLen)
+ContCfgs == ContCfgsOver(Menu, MaxLen, ContOpts)
 Cfgs == ForkCfgs \cup ContCfgs
 
 \* constant tables (TLCEval: evaluated eagerly, once -- TLC keeps function constructors lazy otherwise)
